@@ -4,7 +4,7 @@ from props import resolver_common as rc
 ID = 'C02'
 LEVEL = 'exploration'
 TECHNIQUE = 'differential oracle: conjunction-of-correct model vs real resolve; real tool feedback scenarios in all creation orders'
-LEVEL_TEXT = 'Held on the resolves observed: final.correct/success/to_json compared with the conjunction over eligible feedback for every generated report and for tool-produced (syntax/runtime/TIFA/assert) scenarios in every creation order.'
+LEVEL_TEXT = 'Held on the resolves observed: final.correct/success/to_json compared with the conjunction over eligible feedback for every generated report and for tool-produced (syntax/runtime/TIFA/assert) scenarios in every creation order; the verdict handed back by the platforms\' own resolvers (GradeScope, full) follows the same rule.'
 LEVEL_NOTE = 'Trusts the reference model of eligibility shared with C01.'
 RULE = rc.RULES[ID]
 ASSUMPTIONS = [
